@@ -176,12 +176,29 @@ def execute(case: dict) -> dict:
                 opcode, payload = build_payload(i, j, m)
                 exp = expect_msg(opcode, payload)
                 attempted[i].append(exp)
-                ov = m.get("override")
-                if ov is not None:
-                    await w.send_frame(payload, opcode, ov)
+                # the same bytes in one of the buffer types send_bytes() takes; the caller's buffer is the caller's: it must
+                # read the same after the send (an application re-uses it for the next message or the next connection)
+                bt = m.get("buf", "bytes")
+                if bt == "memoryview16" and len(payload) % 2 == 0 and payload and opcode == WSMsgType.BINARY:
+                    import array
+
+                    a16 = array.array("H")
+                    a16.frombytes(payload)
+                    arg = memoryview(a16)  # 2-byte items: len() is half the size in bytes
                 else:
-                    await w.send_frame(payload, opcode)
-                sent_ok[i].append(exp)
+                    arg = payload if bt in ("bytes", "memoryview16") else (bytearray(payload) if bt == "bytearray" else memoryview(bytearray(payload)))
+                ov = m.get("override")
+                for _rep in range(2 if m.get("twice") else 1):
+                    if _rep:
+                        attempted[i].append(exp)
+                    if ov is not None:
+                        await w.send_frame(arg, opcode, ov)
+                    else:
+                        await w.send_frame(arg, opcode)
+                    if bytes(arg) != payload:
+                        raise Violation("caller-buffer-modified", f"send_frame() changed the {bt} it was given ({len(payload)} bytes, mask={case['use_mask']}, "
+                                        f"compress={case['compress']}): first difference at {next(k for k, (a, b) in enumerate(zip(bytes(arg), payload)) if a != b)}")
+                    sent_ok[i].append(exp)
 
         tasks = [loop.create_task(sender(i, msgs)) for i, msgs in enumerate(case["senders"])]
         cancel_at = {int(k): v for k, v in (case.get("cancel") or {}).items()}
@@ -352,6 +369,8 @@ def msg_strategy(allow_big: bool, allow_override: bool, min_size: int = 0):
             "kind": st.sampled_from(["text", "binary"]),
             "size": sizes,
             "style": st.sampled_from(["random", "pattern", "zeros", "utf8"]),
+            "buf": st.sampled_from(["bytes", "bytes", "bytearray", "memoryview", "memoryview16"]),
+            "twice": st.sampled_from([False, False, False, True]),
         },
         optional={"override": st.sampled_from([9, 12, 15])} if allow_override else {},
     )
